@@ -26,8 +26,8 @@ def check(rep: Report, repo: Optional[Repo] = None) -> None:
 
 
 MANIFEST = dict(
-    technique='own .fj front end: link closure and doc-extent vs computed cell footprint',
-    level_text='Static, PARTIAL: every macro call / global label reachable from the bit files resolves (name and arity), and each documented '
+    technique='own .fj front end: link closure and doc-extent vs computed cell footprint; scratch / alias / jump-word typestate / constant-width / snapshot-order rules',
+    level_text='Also: scratch initialisation, alias hazards, jump-word give-back (typestate), constant widths, and inputs are sampled before any input is modified in place. Static, PARTIAL: every macro call / global label reachable from the bit files resolves (name and arity), and each documented '
                'vector extent equals the computed cell footprint of that parameter for sizes 4/5/8. It does NOT decide the bit-serial '
                'arithmetic itself.',
     level_note='Trusted: fjfront, spec/stl_extents.json. The value-level body of C05 needs execution and is outside this technique family.',
